@@ -601,13 +601,12 @@ def rule_s1(ctx: Ctx) -> None:
     cli = repo.module("permuta.cli")
     poly = cli.functions.get("has_poly_growth")
     if poly is not None:
-        env: Dict[str, str] = {}
-        for st in poly.body:
-            if isinstance(st, ast.Assign) and isinstance(st.targets[0], ast.Name):
-                env[st.targets[0].id] = unparse(st.value)
-        verdict_var = [k for k, v in env.items() if v.endswith(".is_polynomial(basis)") or v.endswith("is_polynomial(basis)")]
+        from ..core import inlined_text
+
         ife = [n for n in ast.walk(poly.node) if isinstance(n, ast.IfExp)]
-        if verdict_var and len(ife) == 1 and isinstance(ife[0].test, ast.Name) and ife[0].test.id == verdict_var[0] and env.get("basis", "").endswith("from_string(args.basis)"):
+        arg = poly.params[0]
+        decided_by = inlined_text(poly, ife[0].test) if len(ife) == 1 else ""
+        if decided_by in (f"PolyPerms.is_polynomial(Basis.from_string({arg}.basis))", f"is_polynomial(Basis.from_string({arg}.basis))"):
             pos, negt = unparse(ife[0].body), unparse(ife[0].orelse)
             if "not" in pos and "not" not in negt:
                 ctx.violation("C13-S1", poly, ife[0], "CLI `poly` prints 'not polynomial' when the test says polynomial")
@@ -619,6 +618,8 @@ def rule_s1(ctx: Ctx) -> None:
             raise AnalysisError(f"{poly.where}: CLI wrapper shape not recognised")
     ins = cli.functions.get("has_regular_insertion_encoding")
     if ins is not None:
+        from ..core import inlined_text
+
         wants = {"is_insertion_encodable_maximum": ("topmost", False), "is_insertion_encodable_rightmost": ("rightmost", False), "is_insertion_encodable": ("does not", True)}
         seen = 0
         for st in ins.body:
@@ -626,7 +627,7 @@ def rule_s1(ctx: Ctx) -> None:
                 t, negated = st.test, False
                 if isinstance(t, ast.UnaryOp) and isinstance(t.op, ast.Not):
                     t, negated = t.operand, True
-                if isinstance(t, ast.Call) and call_name(t) and call_name(t)[-1] in wants and unparse(t.args[0]) == "basis":
+                if isinstance(t, ast.Call) and call_name(t) and call_name(t)[-1] in wants and inlined_text(ins, t.args[0]) == f"Basis.from_string({ins.params[0]}.basis)":
                     word, neg_want = wants[call_name(t)[-1]]
                     msg = unparse(st.body[0])
                     seen += 1
@@ -662,7 +663,16 @@ def sweep(ctx: Ctx):
     return {"sweep_one_shot_subjects": total, "sweep_one_shot_events_whole_package": flagged}
 
 
+GENERIC_FILES = ['permuta/permutils/finite.py', 'permuta/permutils/polynomial.py', 'permuta/permutils/insertion_encodable.py', 'permuta/perm_sets/permset.py', 'permuta/cli.py']
+
+
 def variants():
+    from ..selftest import generic_silent
+
+    return _variants() + generic_silent(GENERIC_FILES)
+
+
+def _variants():
     from ..selftest import V, insert_stmt, reformat_only, rename_local, replace_expr, replace_stmt
 
     IE, PO, FI, PS, CL = ("permuta/permutils/insertion_encodable.py", "permuta/permutils/polynomial.py", "permuta/permutils/finite.py",
